@@ -389,6 +389,38 @@ pub fn c14_oracle(input: &[u8], zone: Option<&Name>, st: &mut Stats) -> PResult 
                     Ok(Err(_)) => ensure!(!got.clean(), "C14 set_raw_name-refuses-clean-name", "{} -> {}", desc(), got.show()),
                 }
             }
+            // same, on a synthesised (pointer-free) query, in two steps: first a different name of exactly
+            // the same wire length, the cache warmed in between
+            if got.clean() {
+                let rr = catch(|| -> Result<Option<(Option<Vec<u8>>, Option<Vec<u8>>)>, String> {
+                    let mut pp = dgen::query(b"start.example", dnssector::constants::Type::A, dnssector::constants::Class::IN).map_err(|e| e.to_string())?;
+                    let twin = Name(got.0.iter().map(|l| vec![b'q'; l.len()]).collect()).to_wire();
+                    {
+                        let mut c = pp.into_iter_question().ok_or("no question")?;
+                        if c.set_raw_name(&twin).is_err() {
+                            return Ok(None);
+                        }
+                    }
+                    let _ = pp.question_raw0().map(|q| q.0.len());
+                    {
+                        let mut c = pp.into_iter_question().ok_or("no question")?;
+                        c.set_raw_name(raw).map_err(|e| e.to_string())?;
+                    }
+                    let r0 = pp.question_raw0().map(|q| q.0.to_vec());
+                    let q1 = pp.question().map(|q| q.0);
+                    Ok(Some((r0, q1)))
+                });
+                match rr {
+                    Err(pm) => fail!(format!("C14 question-read-back-panic {}", panic_sig(&pm)), "{} {}", pm, desc()),
+                    Ok(Err(e)) => fail!("C14 question-rename-fails", "{} {}", e, desc()),
+                    Ok(Ok(None)) => {}
+                    Ok(Ok(Some((r0, q1)))) => {
+                        let want = got.to_text_lower();
+                        ensure!(r0.as_deref() == Some(&raw[..]) && q1.as_deref() == Some(&want[..]), "C14 question-read-back-differs", "{}: after a same-length rename on a synthesised query, question_raw0() = {:?}, question() = {:?}", desc(), r0.map(|r| hex(&r)), q1.map(|v| String::from_utf8_lossy(&v).into_owned()));
+                        st.class("read-back:same-length-rename-warm-cache");
+                    }
+                }
+            }
             // give the name to a record and read it back
             let pkt = crate::gens::golden_packets()[0].clone();
             if let Ok(Ok(mut pp)) = lib_parse(&pkt) {
@@ -555,6 +587,6 @@ pub fn check_c14(ctx: &Ctx, known: &KnownFindings) -> Report {
     rep.absorb(r);
     rep.rule = "exhaustive: see exhaustive_subspace; generated: LDH names with label lengths 61..64 and totals 240..258, grammar host names up to 253 wire bytes, arbitrary byte strings, x default zone (none/root/1..4 labels/long). Oracle: if raw_name_from_str is Ok the result is a pointer-free well-formed wire name <= 255 bytes with labels <= 63 whose label list is the input split on '.' (one trailing dot dropped) followed by the zone's labels iff a zone was given and the non-empty input did not end in a dot; giving it to a record with set_raw_name (when that succeeds; only names outside the owner character policy may be refused) reads back as the lower-cased dotted form. Must accept: LDH/underscore labels <= 62 and wire <= 253. Must reject: empty interior/leading label, label >= 64, wire > 255. Non-trivial: name with >= 2 labels or >= 60 bytes; distinct = hash(input, zone) (enumeration counted exactly).".into();
     rep.assumptions = vec!["63-byte labels and wire lengths 254/255 are left unconstrained (the property promises acceptance up to 62/253 and rejection only of over-long names)".into()];
-    rep.require(&["accepted", "rejected", "read-back", "must-accept", "must-reject:too-long", "must-reject:empty-label", "input:boundary-ldh", "input:host", "input:arbitrary-bytes", "enumerated"]);
+    rep.require(&["accepted", "rejected", "read-back", "read-back:same-length-rename-warm-cache", "must-accept", "must-reject:too-long", "must-reject:empty-label", "input:boundary-ldh", "input:host", "input:arbitrary-bytes", "enumerated"]);
     rep
 }
